@@ -17,6 +17,7 @@ META = {
     'assumptions': ['byteorder / yasna implement the primitives they name', 'value-level round trip for all inputs is not decided'],
     'trusted_base': ['rustc nightly MIR construction', 'mirfacts exporter', 'rules/c18.py, dsl.py, bits.py, sym.py, facts.py'],
 }
+META['explanation'] += ' (R18.7) asn1::from_ber decodes under BER rules and from_der under DER rules, also through a shared helper.'
 
 COMP = "<indexmap::IndexMap<std::string::String, std::boxed::Box<(dyn model::data::Message + 'static)>> as model::data::Message>"
 TRAME = "<std::vec::Vec<std::boxed::Box<(dyn model::data::Message + 'static)>> as model::data::Message>"
